@@ -354,6 +354,21 @@ def out_keyset(sc, o):
         # genuine keys plus a foreign key in the script; only the genuine keys are named
         named = [(c.key(rel), i, rel) for i, c in enumerate(cos)]
         keys = [k for k, _, _ in named] + [foreign.key(rel)]
+    elif kc == "two_of_one_aba":
+        # n >= 3: two keys of cosigner 0 and one of cosigner 1, the last cosigner absent; the second index of cosigner 0 is
+        # chosen so that the derivation records (sorted by key) alternate A, B, A -- a repeated cosigner that is NOT adjacent
+        a0, b0 = cos[0].key(rel), cos[1].key(rel)
+        pick = None
+        for j in range(1, 200):
+            aj = cos[0].key([rel[0], rel[1] + j])
+            if (a0 < b0 < aj) or (aj < b0 < a0):
+                pick = j
+                break
+        if pick is None:
+            raise KeyError("no A,B,A ordering found")
+        named = [(a0, 0, rel), (b0, 1, rel), (cos[0].key([rel[0], rel[1] + pick]), 0, [rel[0], rel[1] + pick])]
+        named += [(c.key(rel), i, rel) for i, c in enumerate(cos) if i >= 3]
+        keys = [k for k, _, _ in named]
     elif kc == "drop":
         named = [(c.key(rel), i, rel) for i, c in enumerate(cos[:-1])]
         keys = [k for k, _, _ in named]
@@ -431,8 +446,10 @@ def build(sc, vals):
                 gen_h = hhash160(honest_script) if o["spk"] == "p2sh" else hsha256(honest_script)
             elif attach == "witness":
                 gen_h = hsha256(honest_script) if o["spk"] == "p2wsh" else hhash160(honest_script)
-            else:
+            elif o["spk"] == "p2sh":
                 gen_h = hhash160(b"\x00\x20" + hsha256(honest_script))
+            else:
+                gen_h = hsha256(honest_script)
             h = vals.get("h", {}).get(str(k), gen_h)
             spk = spk_p2sh(h) if o["spk"] == "p2sh" else spk_p2wsh(h)
             if attach in ("redeem",):
@@ -776,19 +793,21 @@ def _change_path(sc, sym_ops):
 def attached_commit(oi):
     """the scriptPubKey hash equals the hash of the script attached to the output (directly, or through the attached p2wsh redeem script)"""
     h, script = oi["h"], oi["script"]
-    if oi["attach"] == "both":
+    if oi["attach"] == "both" and oi["spk"] == "p2sh":
         return h == hhash160(b"\x00\x20" + hsha256(script))
     if oi["spk"] == "p2sh":
         return h == hhash160(script)
     return h == hsha256(script)
 
 
-SHAPES = [("p2sh", "redeem"), ("p2wsh", "witness"), ("p2wsh", "redeem"), ("p2sh", "witness"), ("p2sh", "both")]
+SHAPES = [("p2sh", "redeem"), ("p2wsh", "witness"), ("p2wsh", "redeem"), ("p2sh", "witness"), ("p2sh", "both"), ("p2wsh", "both")]
 
 
 def _ob_change(kind, m, n, mode, keycases, sym_ops):
     runs = []
     for keys in keycases:
+        if keys == "two_of_one_aba" and n < 3:
+            continue
         for spk, attach in SHAPES:
             sc = {"kind": kind, "m": m, "n": n, "mode": mode, "ins": [{"rel": [0, 0]}],
                   "outs": [{"type": "spend"}, {"type": "change", "spk": spk, "attach": attach, "keys": keys, "rel": [1, 2]}]}
@@ -973,7 +992,7 @@ def ob_tamper(**k):
 
 
 WALLETS = [("p2sh", 1, 2), ("p2sh", 2, 3), ("p2wsh", 1, 2), ("p2wsh", 2, 3)]
-KEYCASES = ["genuine", "one", "foreign_replace", "foreign_add", "drop"]
+KEYCASES = ["genuine", "one", "two_of_one_aba", "foreign_replace", "foreign_add", "drop"]
 
 
 def obligations(tier):
